@@ -211,3 +211,11 @@ def r07_7(ctx):
     from .layout_rules import kinds_table
     for cname in ("MultipleShooting", "SingleShooting", "DirectCollocation"):
         kinds_table(ctx, cname)
+
+
+@rule("R07.8", min_instances=20, desc="producers of the sampled quantities: collocation lists (incl. algebraic values at nodes) and the refined-sampling wiring (shared with C02/C08)")
+def r07_8(ctx):
+    from .layout_rules import collocation_content
+    from .c08 import r08_2
+    collocation_content(ctx)
+    r08_2(ctx)
